@@ -6,11 +6,3 @@ def m(pid, level, text, note, technique, engine, ref):
     META[pid] = dict(level=level, text=text, note=note, technique=technique, engine=engine, ref=ref)
 
 
-m("C28", "exploration",
-  "Model-based stateful property test: generated histories of add/remove/freeze/defrost/autoFreeze/clear are applied to "
-  "occa::trie<int> and to a std::map; after every step all strings up to a bound are queried in both the frozen and the "
-  "unfrozen representation and compared with the longest-stored-prefix model. Search, not proof: it finds shallow and "
-  "medium-depth divergences within seconds (it found and now guards the unfrozen off-by-one), it cannot show absence.",
-  "Trusted: the std::map model (15 lines), rapidcheck, ASan/UBSan. Keys are non-empty; alphabet of 4 bytes incl. one >= 0x80.",
-  "property-based testing (rapidcheck), stateful model-based histories vs std::map reference, exhaustive bounded queries per state",
-  "rapidcheck", "DESIGN.md §4 C28")
